@@ -843,13 +843,42 @@ def _level_d(ctx, tree, n):
              MM_HEADER + b"hash: " + tree.sha["a"] + b"\n", MM_HEADER + b"file_id: a-id\n",
              MM_HEADER + b"file_id: a-id\nhash: 00\n\nfile_id: f-id\nhash: " + tree.sha["dir/f"] + b"\n",
              MM_HEADER + b"file_id: a-id\nfile_id: f-id\nhash: " + tree.sha["a"] + b"\n",
-             MM_HEADER + b"file_id a-id\n"]
+             MM_HEADER + b"file_id a-id\n",
+             # a recorded file id that is no longer versioned (the file was removed from version control after
+             # the merge) BEFORE / BETWEEN / AFTER live records: only that record is skipped
+             MM_HEADER + b"file_id: nope\nhash: " + tree.sha["a"] + b"\n\nfile_id: a-id\nhash: " + tree.sha["a"]
+             + b"\n\nfile_id: f-id\nhash: " + tree.sha["dir/f"] + b"\n",
+             MM_HEADER + b"file_id: a-id\nhash: " + tree.sha["a"] + b"\n\nfile_id: nope\nhash: 00\n\nfile_id: f-id\nhash: "
+             + tree.sha["dir/f"] + b"\n",
+             MM_HEADER + b"file_id: a-id\nhash: " + tree.sha["a"] + b"\n\nfile_id: f-id\nhash: " + tree.sha["dir/f"]
+             + b"\n\nfile_id: nope\nhash: 00\n"]
+    stale_expect = {}
+    # the same on generated records: a stale record (unversioned id) spliced into the file that the real
+    # set_merge_modified wrote, at a random stanza boundary; the live records must still be read back
+    for _ in range(max(4, n // 4)):
+        hashes = {p: (tree.sha[p] if ctx.rng.random() < 0.8 else _gen_hash(ctx.rng, tree, p))
+                  for p in ctx.rng.sample([p for p in versioned if p in tree.sha], ctx.rng.randrange(1, 4))}
+        tree.open().set_merge_modified(dict(hashes))
+        data = tree.raw("merge-hashes")
+        if data is None or not data.startswith(MM_HEADER) or b"\r" in data:
+            continue
+        stanzas = [x for x in data[len(MM_HEADER):].split(b"\n\n") if x.strip(b"\n")]
+        stanzas = [x.strip(b"\n") for x in stanzas]
+        stanzas.insert(ctx.rng.randrange(0, len(stanzas) + 1), b"file_id: gone-%d\nhash: %s" % (
+            ctx.rng.randrange(100), ctx.rng.choice(list(tree.sha.values()))))
+        blobs.append(MM_HEADER + b"\n\n".join(stanzas) + b"\n")
+        stale_expect[blobs[-1]] = ({p: h for p, h in hashes.items() if h == tree.sha[p]}, sorted(hashes))
+        ctx.count("D:stale-record-spliced")
     for b in blobs:
         tree.put_raw("merge-hashes", b)
         case = dict(level="D", file=None if b is None else b.hex())
         try:
             back = tree.open().merge_modified()
             out = "ok " + (",".join("%s/%s" % (hx(p), hx(h)) for p, h in back.items()) or "-")
+            if b in stale_expect and back != stale_expect[b][0]:
+                ctx.violation(case, "merge hashes recorded for %r, then one more record whose file id is no longer "
+                              "versioned: merge_modified() reads back %r, expected %r (only the stale record is skipped)"
+                              % (stale_expect[b][1], back, stale_expect[b][0]))
         except errors.MergeModifiedFormatError:
             out = "E:Format"
         except ValueError:
